@@ -457,7 +457,8 @@ Print Assumptions C09_e2e_map_arguments_in_range.
 
 (* ---- the matrix handed to the Cholesky factorisation of wire deconvolution (deconvolution/wires.rs: a_matrix,
    `cholesky_in_place(..).unwrap()`), for the factors regenerated from the source and EVERY block length:
-   symmetric and positive definite over the reals, x^T A x >= 0.6 |x|^2.  (The binary64 factorisation itself is
+   symmetric and positive definite over the reals, x^T A x >= margin |x|^2 with margin = a0 - 2 (|a1|+..+|a4|) > 0
+   (0.6396 for the current factors).  (The binary64 factorisation itself is
    measured on the implementation for all 256 block lengths: rel17block.) *)
 From Coq Require Import Reals List.
 From AG Require Signal.CrossTalk.
@@ -469,9 +470,11 @@ Print Assumptions C09_crosstalk_band_lower_bound.
 
 Theorem C09_crosstalk_matrix_positive_definite :
   (forall i j, CrossTalk.crosstalk_entry i j = CrossTalk.crosstalk_entry j i) /\
-  (forall l : list R, (CrossTalk.crosstalk_qform l >= 6 / 10 * CrossTalk.sumsq l)%R) /\
+  (0 < CrossTalk.nf_margin)%R /\
+  (forall l : list R, (CrossTalk.crosstalk_qform l >= CrossTalk.nf_margin * CrossTalk.sumsq l)%R) /\
   (forall l : list R, ~ Forall (fun x => x = 0%R) l -> (0 < CrossTalk.crosstalk_qform l)%R).
 Proof.
-  exact (conj CrossTalk.crosstalk_symmetric (conj CrossTalk.crosstalk_lower_bound CrossTalk.crosstalk_positive_definite)).
+  exact (conj CrossTalk.crosstalk_symmetric (conj CrossTalk.nf_margin_pos
+          (conj CrossTalk.crosstalk_lower_bound CrossTalk.crosstalk_positive_definite))).
 Qed.
 Print Assumptions C09_crosstalk_matrix_positive_definite.
